@@ -129,7 +129,9 @@ def write_contract(h):
 def _install_write_contract(W, sock, log):
     """`_write` by contract.  Precondition (site obligation): a writer is present."""
     def needs(args, kwargs):
-        log.append(("write-call", args[0], args[1], sock.attrs["_writer"], aio.now(W.it)))
+        q = sock.attrs["_message_queue"]
+        queued = [x for x in getattr(q, "items", [])]
+        log.append(("write-call", args[0], args[1], sock.attrs["_writer"], aio.now(W.it), queued))
     stub_async(W, F_WRITE, "_write", [None, "OSError", "ConnectionResetError"] + ENCODE_EXCEPTIONS, needs)
 
 
@@ -213,7 +215,9 @@ def _drain_obligations(h, W, sock, e, rest, log, r, now0, first):
     h.oblige("an unexpired head entry is written", len(wc) == 1)
     if len(wc) != 1:
         return
-    _, hdr, msg, writer_at_call, t_call = wc[0]
+    _, hdr, msg, writer_at_call, t_call, queued_at_call = wc[0]
+    h.oblige("the entry is taken off the queue before its write can suspend (a concurrent drain cannot transmit it a second time)",
+             not any(x is e for x in queued_at_call))
     h.oblige("the frame written is that of the popped head entry: its very header and message",
              And(hdr is h.attr(e, "header"), msg is h.attr(e, "message")))
     h.oblige("the expiry test and the write happen at the same loop time", h.eq(t_call, now0))
@@ -500,7 +504,10 @@ def read_contract(h):
     delivered = []
     hdr, msg = W.header("rxh"), W.message("rxm")
 
+    got = {"frame": False}
+
     def one(it):
+        got["frame"] = True
         return (hdr, msg)
 
     stub_async(W, F_READ1, "_read_one_message", [one, None, "IncompleteReadError", "OSError", "ConnectionResetError",
@@ -527,6 +534,12 @@ def read_contract(h):
     notes = calls(W, "_notify_message_received")
     resets = calls(W, "reset_connection")
     h.oblige("one frame is read per iteration", len(outcome) == 1)
+    if got["frame"]:
+        h.oblige("a frame that was read is delivered before the next one is read: the notification is awaited in the loop, exactly once",
+                 len(notes) == 1)
+        h.oblige("...and not handed to a background task (deliveries would overlap and depend on segmentation)", scheduled(W) == [])
+    else:
+        h.oblige("nothing is delivered without a frame", len(notes) == 0)
     if notes:
         h.oblige("subscribers get exactly the header and message that were read", And(len(notes) == 1, notes[0][2][0] is hdr, notes[0][2][1] is msg))
         h.oblige("a delivered frame does not reset the connection", len(resets) == 0)
